@@ -52,7 +52,7 @@ package types
 // fail or panic
 //@ func (k BandtssKeeper) CreateDirectSigningRequest
 //@ trusted
-//@ may_panic
+//@ may_panic calls
 //@ modifies Bank, Other
 
 // ---- C02/C14: parameter validation accepts only reward percentages that are percentages ---------------------
@@ -62,3 +62,16 @@ package types
 //@ ensures err == nil ==> p.OracleRewardPercentage <= 100
 // C09: the number of sampling tries is converted to int by GetRandomValidators; accepted values must survive that
 //@ ensures err == nil ==> 1 <= p.SamplingTryCount && p.SamplingTryCount <= MaxInt64
+
+// ---- C01: stateless validation of a data request -------------------------------------------------------------------
+// at least one report is needed to resolve (a request with min_count 0 could never reach its count and would expire
+// with every report in), and never more reports than validators asked
+//@ func (m MsgRequestData) ValidateBasic
+//@ ensures err == nil ==> 1 <= m.MinCount && m.MinCount <= m.AskCount && bech32ok(m.Sender)
+//@ ensures err == nil ==> len(m.ClientID) <= MaxClientIDLength && 1 <= m.PrepareGas && 1 <= m.ExecuteGas
+
+// the environment object handed to the VM for the execution phase (maps of reports by validator and external id: not
+// modelled); it starts without return data
+//@ func NewExecuteEnv
+//@ trusted
+//@ ensures result.Retdata == nil
